@@ -11,6 +11,7 @@ import (
 	"google.golang.org/grpc/peer"
 	"net/rpc"
 	"os"
+	"runtime"
 	"strings"
 	"sync"
 	"sync/atomic"
@@ -61,7 +62,18 @@ func (s *RPCServer) Get(_ int, out *int32) error {
 	return nil
 }
 func (s *RPCServer) Big(n int, out *[]byte) error { *out = []byte(strings.Repeat("b", n)); return nil }
+
+// collect runs the garbage collector and lets finalizers run: a serving plugin lives long enough for that to
+// happen, the short-lived test plugin must be made to (whatever go-plugin swapped into os.Stdout / os.Stderr has
+// to survive it).
+func collect() {
+	runtime.GC()
+	time.Sleep(20 * time.Millisecond)
+	runtime.GC()
+}
+
 func (s *RPCServer) Print(a PrintArgs, _ *int) error {
+	collect()
 	fmt.Fprint(os.Stdout, a.Out)
 	fmt.Fprint(os.Stderr, a.Err)
 	return nil
@@ -194,6 +206,7 @@ func (s *GRPCServer) PrintKV(_ context.Context, r *grpctest.PrintKVRequest) (*gr
 }
 
 func (s *GRPCServer) PrintStdio(_ context.Context, r *grpctest.PrintStdioRequest) (*emptypb.Empty, error) {
+	collect()
 	os.Stdout.Write(r.Stdout)
 	os.Stderr.Write(r.Stderr)
 	return &emptypb.Empty{}, nil
